@@ -1,32 +1,45 @@
 #!/usr/bin/env python3
-import sys, os
+"""bin/setup: offline build of everything the registered checks need: Gen tables from /repo, a full .vo
+build of the Coq files the claimed properties depend on , harness tools."""
+import sys, os, json
 sys.path.insert(0, os.path.dirname(os.path.abspath(__file__)))
 import verifcheck as vc
 
 def main():
     log = []
+    man = json.load(open(os.path.join(vc.VERIF, "MANIFEST.json")))
+    claimed = [c["property_id"] for c in man["checks"]]
     with vc.Lock():
         ok, msg = vc.run_go2coq(log)
         print("go2coq:", msg)
         vc.ensure_makefile()
-        rc, out, dt = vc.sh(["make", "-j", "16"], cwd=vc.COQ, timeout=6000)
-        print(out[-6000:])
-        print(f"coq build: rc={rc} {dt:.0f}s")
-        if rc != 0:
+        targets = []
+        for pid in claimed:
+            targets.append(f"Properties/{pid}.vo")
+            hv = vc.PROPS[pid]["harness_v"]
+            if hv and os.path.exists(os.path.join(vc.COQ, hv[:-1])) and hv not in targets:
+                targets.append(hv)
+        rc, out, dt = vc.sh(["make", "-j", "16", "-k"] + targets, cwd=vc.COQ, timeout=3000)
+        print(out[-4000:])
+        print(f"coq build of claimed properties: rc={rc} {dt:.0f}s")
+        missing = [t for t in targets if not os.path.exists(os.path.join(vc.COQ, t))]
+        if missing:
+            print("NOT BUILT:", missing)
             return 1
         os.makedirs(os.path.join(vc.HARNESS, "bin"), exist_ok=True)
         rc = 0
-        for d in sorted(os.listdir(os.path.join(vc.HARNESS, "cmd"))):
-            if d == "go2coq":
+        for d in sorted(set(vc.PROPS[p]["driver"] for p in claimed)):
+            if not os.path.isdir(os.path.join(vc.HARNESS, "cmd", d)):
                 continue
-            cfgs = [c for c in vc.PROPS.values() if c["driver"] == d]
-            tags = cfgs[0]["tags"] if cfgs else "verif"
-            race = cfgs[0]["race"] if cfgs else False
-            r, out, dt = vc.go_build(os.path.join(vc.HARNESS, "bin", d), "./cmd/" + d, tags=tags, race=race)
+            cfg = [c for c in vc.PROPS.values() if c["driver"] == d][0]
+            r, out, dt = vc.go_build(os.path.join(vc.HARNESS, "bin", d), "./cmd/" + d, tags=cfg["tags"], race=cfg["race"])
             print(out[-3000:])
             print(f"harness build {d}: rc={r} {dt:.0f}s")
             rc = rc or r
-        bad = vc.audit_sources()
+        bad = []
+        for pid in claimed:
+            roots = [f"Properties/{pid}.v"] + ([vc.PROPS[pid]["harness_v"][:-1]] if vc.PROPS[pid]["harness_v"] else [])
+            bad += vc.audit_sources(set(vc.coq_closure(roots)))
         if bad:
             print("AUDIT:", bad)
             return 1
